@@ -106,10 +106,29 @@ def check_reference(ctx, name, pkts, ref_obs):
                        'scenario': {'name': 'ref', 'stream': name}})
 
 
-def deliver(chunks, profile='pubsub', mode='sync'):
+class TooSlow(Exception):
+    pass
+
+
+def _alarm(signum, frame):
+    raise TooSlow()
+
+
+def deliver(chunks, profile='pubsub', mode='sync', limit=None):
+    """Deliver the chunks to a client in the base state.  With `limit` (seconds) a delivery that does not come back
+    raises TooSlow: a framing loop that re-parses megabytes per byte is a verdict, not a reason to hang the check."""
     w = base_world(profile, mode)
-    for c in chunks:
-        w.apply(('raw', 0, c))
+    if limit:
+        import signal
+        old = signal.signal(signal.SIGALRM, _alarm)
+        signal.setitimer(signal.ITIMER_REAL, limit)
+    try:
+        for c in chunks:
+            w.apply(('raw', 0, c))
+    finally:
+        if limit:
+            signal.setitimer(signal.ITIMER_REAL, 0)
+            signal.signal(signal.SIGALRM, old)
     return w
 
 
@@ -260,13 +279,20 @@ def _long(args):
     pkts, cutsets = _LONG[label]
     data = b''.join(pkts)
     n = len(data)
-    ref = deliver(pkts)
+    try:
+        ref = deliver(pkts, limit=60)
+    except TooSlow:
+        return label, hi - lo, [['timeout', n]]
     ref_obs, ref_key = observable(ref), final_key(ref)
     bad = []
     for cs in cutsets[lo:hi]:
         cuts = list(cs) + [n]
         chunks = [data[a:b] for a, b in zip([0] + cuts[:-1], cuts)]
-        w = deliver(chunks)
+        try:
+            w = deliver(chunks, limit=60)
+        except TooSlow:
+            bad.append(['timeout'] + cuts)
+            break
         if observable(w) != ref_obs or final_key(w) != ref_key:
             bad.append(cuts)
             if len(bad) > 2:
@@ -313,7 +339,13 @@ def run(ctx):
         tasks += [(name, a, min(total, a + step)) for a in range(0, total, step)]
     for label, pkts, cutsets in long_cases(ctx.quick):
         _LONG[label] = (pkts, cutsets)
-        check_reference(ctx, label, pkts, observable(deliver(pkts)))
+        try:
+            check_reference(ctx, label, pkts, observable(deliver(pkts, limit=60)))
+        except TooSlow:
+            ctx.violation({'kind': 'framing', 'signature': 'delivery-does-not-return/%s' % label,
+                           'detail': 'whole-packet delivery of stream %s did not return within 60 s' % label,
+                           'history': [['stream', label], ['cuts', []]], 'scenario': {'name': 'long', 'stream': label}})
+            del _LONG[label]
     ltasks = []
     for label, (pkts, cutsets) in _LONG.items():
         step = 200 if label == 'len3' else 8
@@ -329,6 +361,11 @@ def run(ctx):
         for label, k, bad in pool.imap_unordered(_long, ltasks):
             n_long += k
             for cuts in bad[:1]:
+                if cuts and cuts[0] == 'timeout':
+                    ctx.violation({'kind': 'framing', 'signature': 'delivery-does-not-return/%s' % label,
+                                   'detail': 'delivery of stream %s cut at %r did not return within 60 s' % (label, cuts[1:7]),
+                                   'history': [['stream', label], ['cuts', cuts[1:41]]], 'scenario': {'name': 'long', 'stream': label}})
+                    continue
                 ctx.violation({'kind': 'framing', 'signature': 'long-stream-differs/%s' % label,
                                'detail': 'stream %s cut at %r behaves differently from whole-packet delivery' % (label, cuts[:6]),
                                'history': [['stream', label], ['cuts', cuts[:40]]], 'scenario': {'name': 'long', 'stream': label}})
